@@ -202,7 +202,7 @@ pub fn property() -> Property {
     regime::add(&mut checks);
     Property {
         id: "C10",
-        rule: "model-view/projection pairs: structured (rational rigid transform x perspective/orthographic/frustum) and arbitrary invertible matrices with small rational (floats: integer) entries, singular products discarded; viewports at arbitrary offsets with w != h, sometimes negative height; points with clip w != 0; picking centres inside and outside the viewport, anisotropic sizes; non-trivial = viewport offset != 0 and w != h and clip w != 1 / centre != viewport centre; distinct = distinct consumed tape prefix. Regime checks (scaled-*, f32 and f64): an exact dyadic unit-frame case (modelview: signed permutation x 2^g / rotation rounded to 2^-8 / general affine / full 4x4; projection: perspective or frustum with dyadic near and far up to far/near 2^16, orthographic, ordinary upper part with bottom row (0,0,c,1) (0,0,c,0) (0,0,0,d) (0,0,c,d) (a,0,0,1) (a,b,c,1) (a,b,c,d), arbitrary integers; viewports ordinary / offsets up to 2^30 / sizes down to 2^-30 (f32) 2^-60 (f64) / sizes up to 2^32 / negative width or height; points generic or within 2^-12 of the eye plane; window points inside, outside, depth in, on the ends of and outside [0,1]) handed to vek with modelview x 2^a, projection x 2^b, world unit x 2^j (projection: a, b, j stratified over every exponent for which the inputs are representable and eye / clip space stay finite, half of the scaled cases aimed at a subnormal clip w; unprojection: a and b anywhere in the normal range with every entry of the scaled product and of its inverse within 2^+-26 (f32) / 2^+-240 (f64)); picking: viewport, centre, size x 2^k over the whole range down to subnormal sizes, sizes 2^-20 of the viewport and huge, centres far outside; non-trivial there = some exponent != 0, clip w != 1 and the derived bound below 1/64 of the viewport size / depth range / point magnitude",
+        rule: "model-view/projection pairs: structured (rational rigid transform x perspective/orthographic/frustum) and arbitrary invertible matrices with small rational (floats: integer) entries, singular products discarded; viewports at arbitrary offsets with w != h, sometimes negative height; points with clip w != 0; picking centres inside and outside the viewport, anisotropic sizes; non-trivial = viewport offset != 0 and w != h and clip w != 1 / centre != viewport centre; distinct = distinct consumed tape prefix. Regime checks (scaled-*, f32 and f64): an exact dyadic unit-frame case (modelview: signed permutation x 2^g / rotation rounded to 2^-8 / general affine / full 4x4; projection: perspective or frustum with dyadic near and far up to far/near 2^16, orthographic, ordinary upper part with bottom row (0,0,c,1) (0,0,c,0) (0,0,0,d) (0,0,c,d) (a,0,0,1) (a,b,c,1) (a,b,c,d), arbitrary integers; viewports ordinary / offsets up to 2^30 / sizes down to 2^-30 (f32) 2^-60 (f64) / sizes up to 2^32 / negative width or height; points generic or within 2^-12 of the eye plane; window points inside, outside, depth in, on the ends of and outside [0,1]) handed to vek with modelview x 2^a, projection x 2^b, world unit x 2^j (projection: a, b, j stratified over every exponent for which the inputs are representable and eye / clip space stay finite, half of the scaled cases aimed at a subnormal clip w; unprojection: a and b anywhere in the normal range with every entry of the scaled product and of its inverse within 2^+-26 (f32) / 2^+-240 (f64)); picking: viewport, centre, size x 2^k over the whole range down to subnormal sizes, sizes 2^-20 of the viewport and huge, centres far outside; non-trivial there = some exponent != 0, clip w != 1 and the derived bound below 1/64 of the viewport size / depth range / point magnitude. Special-value checks (special-*, f32 and f64, each case also evaluated by vek in Rat with exact comparison): every parameter independently a special exact value in 11 cases of 16 and an ordinary regime value otherwise (so all combinations occur): viewport (-1,-1,2,2) [twice as often], (0,0,1,1), (0,0,2,2), (-1,-1,1,1), (-1/2,-1/2,1,1), (1,1,1,1), (0,0,2^k,2^m), (0,0,640,480), power-of-two offset and size, (-2^k,-2^k,2^(k+1),2^(k+1)), occasionally with a negative size; modelview identity, integer translation, signed permutation without translation, 2^g scale, z flip, power-of-two z translation; projection identity, diag(1,1,-1,1), power-of-two orthographic, perspective with focal lengths 1 / 2^k and dyadic near / far in both depth flavours and handednesses, affine with bottom row exactly (0,0,0,1), 2^g I, identity with w x 2^g, identity with depth translation, bottom row (0,0,1,1); points whose clip-space image is exactly on ndc x,y,z in {-1,-1/2,0,1/2,1} (near / far plane, viewport centre, corners, edge midpoints; used when dyadic), world origin, unit points, eye-plane neighbours; window points exactly on viewport corners / edge midpoints / centre with depth exactly 0, 1/2, 1; picking centre = viewport centre / origin / far corner / (0,0) / (1,1), size = exactly the viewport size (with the viewport centre: region = whole viewport) / (1,1) / (2,2) / half the viewport / a power of two; three cases in four unscaled, the rest combined with the 2^a, 2^b, 2^j, 2^k scalings; the scaled-* checks draw a special viewport in one case of eight; non-trivial there = at least one parameter special and the derived bound below 1/64 of the magnitudes",
         assumptions: &[
             "rustc and the proptest runner/shrinker are trusted",
             "oracle: reference projection / unprojection on plain arrays (vkit::refmath matvec, adjugate inverse)",
